@@ -103,6 +103,12 @@ func signedRejects03() []signedReject03 {
 		{"qe-wrong-isvprodid", "qe", func(w *world.World) { w.Qe.IsvProdID = fmt.Sprint((int(w.P.QeIsvProdID) + 1) % 65536) }},
 		// a genuinely signed document of ANOTHER kind or version (Intel signs SGX TCB Info and SGX QE identities with the same
 		// key): what kind of document it is, is a signed value like any other
+		{"tcb-id-and-version-of-the-qe-identity", "tcb", func(w *world.World) { w.Tcb.ID, w.Tcb.Version = "TD_QE", "2" }},
+		{"qe-id-and-version-of-the-tcb-info", "qe", func(w *world.World) { w.Qe.ID, w.Qe.Version = "TDX", "3" }},
+		{"tcb-id-of-the-qe-identity-own-version", "tcb", func(w *world.World) { w.Tcb.ID = "TD_QE" }},
+		{"qe-id-of-the-tcb-info-own-version", "qe", func(w *world.World) { w.Qe.ID = "TDX" }},
+		{"tcb-version-of-the-qe-identity", "tcb", func(w *world.World) { w.Tcb.Version = "2" }},
+		{"qe-version-of-the-tcb-info", "qe", func(w *world.World) { w.Qe.Version = "3" }},
 		{"tcb-id-sgx", "tcb", func(w *world.World) { w.Tcb.ID = "SGX" }},
 		{"tcb-version-2", "tcb", func(w *world.World) { w.Tcb.Version = "2" }},
 		{"qe-id-qe", "qe", func(w *world.World) { w.Qe.ID = "QE" }},
@@ -493,6 +499,26 @@ func c03(x *mon.Ctx) {
 	x.Require("tcb-control-second-genuine-signer", nw, 0, nw)
 	x.Require("qe-signer-is-platform-ca", 0, nw, nw)
 	stageEventsForgedUnderDefaultRoot(x)
+
+	// ---- the OTHER document, genuinely signed, in this slot: the signed TCB Info served as the enclaveIdentity member (its own
+	//      signature, its own issuer chain) and the signed QE Identity served as the tcbInfo member
+	for wi := 0; wi < x.Pick(2, 8); wi++ {
+		r := x.Rand(fmt.Sprint("other-document", wi))
+		base := richHonest(r)
+		base.Resign()
+		lvl := []int{world.LColl, world.LCrl}[wi%2]
+		w1 := base.Clone()
+		w1.QeBody = world.SignedBody("enclaveIdentity", base.Tcb.JSON(), base.PKI.TcbSign.Key)
+		c1 := w1.Case(lvl, "other-document-in-this-slot", fmt.Sprintf("w%d/tcb-info-as-enclave-identity", wi))
+		c1.Expect = "reject"
+		check(x, wi, c1)
+		w2 := base.Clone()
+		w2.TcbBody = world.SignedBody("tcbInfo", base.Qe.JSON(), base.PKI.TcbSign.Key)
+		c2 := w2.Case(lvl, "other-document-in-this-slot", fmt.Sprintf("w%d/enclave-identity-as-tcb-info", wi))
+		c2.Expect = "reject"
+		check(x, wi, c2)
+	}
+	x.Require("other-document-in-this-slot", 0, 2*x.Pick(2, 8), 2*x.Pick(2, 8))
 
 	// ---- a signature string says nothing by itself: the document that must be refused (OutOfDate, Revoked, foreign FMSPC, wrong
 	//      MRSIGNER …) arrives AFTER a response that carried its signature string next to the acceptable document's member (refused,
